@@ -245,13 +245,13 @@ ADDENDA = {
     'C02': 'Profiles: generic, modal-heavy, modal-deep, quantifier-heavy, identity-heavy and first-order-modal (quantifiers under modal operators); a share of the cases is rule-first (one drawn top-level form as a premise or the conclusion).',
     'C05': 'The enumeration also covers crowded branches (one literal already present at eight other worlds, then every 1-/2-element set at world 0) and the identity pairs alternating between two worlds.',
     'C06': 'A per-logic finite sub-domain runs every quantifier shape on a hand-made branch where a constant already occurs, in modal logics also at another world than the shape.',
-    'C07': 'The evaluator stream takes operands of every kind, including letters and predications the model never hears about (default value), and the law "a logic that does not declare Assertion native has a transparent assertion" is checked against the package\'s own declaration.',
+    'C07': 'The evaluator stream takes operands of every kind, including letters and predications the model never hears about (default value) and one sentence on both sides of a binary operator, and the law "a logic that does not declare Assertion native has a transparent assertion" is checked against the package\'s own declaration.',
     'C08': 'Target models have up to 5 worlds and, in a quarter of the cases, up to 6 constants; sparse access chains through up to 8 worlds; world names spread injectively and non-monotonically over 0..40 in a third of the modal cases; a bystander model with rotated values is built before anything is evaluated.',
     'C10': 'Reflexivity is also checked with the conclusion among several identical premises.',
     'C13': 'Two parsers built over one store object are interleaved on strings with clashing arities; every result must be the same whether the store starts empty or with a declaration of a symbol that occurs nowhere (irrelevant-declaration invariance).',
     'C14': 'Subscripts include values that CPython hashes like small ones (n + 2**61 - 1), so that distinct items with equal hashes meet in the construction cache.',
     'C18': 'The store universe includes the two system predicates and membership is compared for every published reference; bulk operations are also called with the container itself as argument; sort is called with tie-producing and constant keys.',
-    'C20': 'API-built models share the generator of C08 (scattered world names, permuted calls, two-digit subscripts).',
+    'C20': 'API-built models share the generator of C08 (scattered world names, permuted calls, two-digit subscripts); for models read from a branch the exported uninterpreted sentences are compared with the uninterpreted literals that occur on the branch (proofs keep the fragments a logic does not interpret with a small weight).',
 }
 for _k, _extra in ADDENDA.items():
     CHECKS[_k]['text'] = CHECKS[_k]['text'].rstrip() + ' ' + _extra
